@@ -232,7 +232,12 @@ def run(prop, tier="quick", seed=0, replay_path=None):
     todo = [ob for ob in obs if results[ob.id].status == "unknown" and ob.id not in searched and ob.id not in alt_ok
             and not (ob.meta.get("alt_of") in alt_ok)]
     if todo:
-        results.update(solve.solve_all(todo, timeout_s=budget * 3, want_both=both, progress=progress, retry=False, retry_pass=True))
+        # a handful of open obligations get three times the budget; a flood of them (typically a changed function whose
+        # invariants no longer fit) gets one more pass at the same budget so that the run stays within minutes
+        factor = 3 if len(todo) <= 12 else 1
+        if len(todo) > 48:
+            todo = todo[:16]          # the rest stays undecided: the verdict (exit 2, or 1 if something replays) is the same
+        results.update(solve.solve_all(todo, timeout_s=budget * factor, want_both=both, progress=progress, retry=False, retry_pass=True))
     for oid, (model, rep) in searched.items():
         r = results[oid]
         r.status, r.solver, r.model = "sat", "undecided by the solvers; failing input found by abstract search / bounded replay", model
